@@ -624,6 +624,36 @@ class Segments(Family):
             # configurations.  Its only observable entry point is the intersection of two exactly straight curves
             # (check_lines), so in the compiled configuration the same exact answer is demanded there.  A one-point
             # common part (touching collinear segments) is the listed finding F-D of C20 and is left to that check.
+            # the compiled convex_hull_collide (not exported either) sends two hulls that are both segments to the compiled
+            # line_line_collide: reached with curves of degree 2 whose control points are collinear but unevenly spaced (non-zero
+            # linearisation error, so the closed-form line / line branch is not taken).  Slanted directions only: a curve lying on
+            # an axis-parallel line is the listed finding F-E.  A true overlap must not come back as "no intersection, not
+            # coincident"; disjoint parallel pieces must not produce an intersection.
+            if ctx.cfg == "speedup" and a != b and c != d and b[0] != a[0] and b[1] != a[1] and ctx.slanted_budget > 0:
+                ctx.slanted_budget -= 1
+                qa = arr([[a[0], a[0] + (b[0] - a[0]) / 4, b[0]], [a[1], a[1] + (b[1] - a[1]) / 4, b[1]]])
+                qb = arr([[c[0], c[0] + 3 * (d[0] - c[0]) / 4, d[0]], [c[1], c[1] + 3 * (d[1] - c[1]) / 4, d[1]]])
+                dd_ = (b[0] - a[0]) ** 2 + (b[1] - a[1]) ** 2
+                s0_ = ((c[0] - a[0]) * (b[0] - a[0]) + (c[1] - a[1]) * (b[1] - a[1])) / dd_
+                s1_ = ((d[0] - a[0]) * (b[0] - a[0]) + (d[1] - a[1]) * (b[1] - a[1])) / dd_
+                lo_, hi_ = max(Fr(0), min(s0_, s1_)), min(Fr(1), max(s0_, s1_))
+                try:
+                    got_, flag_ = ctx.GI.all_intersections(qa, qb)
+                    ncol = np.asarray(got_).shape[1]
+                    out_ = None
+                except NotImplementedError:
+                    out_ = "refused"
+                except Exception as exc:  # noqa
+                    out_ = type(exc).__name__
+                if out_ not in (None, "refused"):
+                    res.failure("hull-segments:compiled-entry-raised", "all_intersections of the collinear-net curves over %s raised %s" % (js(case), out_), rc)
+                elif out_ is None:
+                    if want and lo_ < hi_ and ncol == 0 and not flag_:
+                        res.failure("hull-segments:compiled-entry", "curves with collinear, unevenly spaced control points over the overlapping segments %s: "
+                                    "returned no intersection and coincident=False (a true hit was pruned)" % js(case), rc)
+                    if not want and ncol > 0:
+                        res.failure("hull-segments:compiled-entry", "curves with collinear control points over the disjoint parallel segments %s: "
+                                    "returned %d intersection(s)" % (js(case), ncol), rc)
             if ctx.cfg == "speedup" and a != b and c != d:
                 dd = (b[0] - a[0]) ** 2 + (b[1] - a[1]) ** 2
                 s0 = ((c[0] - a[0]) * (b[0] - a[0]) + (c[1] - a[1]) * (b[1] - a[1])) / dd
@@ -1503,6 +1533,7 @@ def main():
     ctx.wiggle = C.generated("f90_helpers_WIGGLE")
     ctx.eps = C.generated("py_helpers_EPS")
     ctx.bad_hull_inputs = []
+    ctx.slanted_budget = 400 if not ctx.thorough else 6000
     import collections
     ctx.downstream = collections.Counter()
     ctx.flat_false_hits = collections.Counter()
